@@ -102,6 +102,9 @@ func (ex *Executor) addObl(st *State, kind, detail string, goal *Term, text stri
 	}
 	o := &Obligation{Name: ex.oblName(st, kind, detail), Kind: kind, Func: ex.unitKey, Props: ex.propsFor(tags),
 		Facts: append([]*Term(nil), st.facts...), Goal: goal, Text: text, Path: strings.Join(st.path, "")}
+	if kind == "safe" {
+		o.Heap = copyHeap(st.heap) // replay templates rebuild the state at the obligation from it
+	}
 	ex.Obls = append(ex.Obls, o)
 }
 
